@@ -107,8 +107,8 @@ type c10RModel struct {
 	name  string
 	soft  string // column of the soft-delete flag ("" = plain model)
 	updAt bool
-	keys  []string                      // key columns
-	keyOf func(k int) []interface{}     // key of row k (k = 9: a key no row has)
+	keys  []string                         // key columns
+	keyOf func(k int) []interface{}        // key of row k (k = 9: a key no row has)
 	mk    func(k int, f c10RF) interface{} // pointer to a value carrying the key of row k (0 = zero key) and f
 
 	db    *gorm.DB
@@ -312,7 +312,7 @@ type c10RStep struct {
 type c10R struct {
 	Model     string     `json:"model"`
 	Steps     []c10RStep `json:"steps"`
-	ScopeFrom int        `json:"scope_from"` // steps[ScopeFrom:] are supplied through one Scopes(...) function (len(steps) = none)
+	ScopeFrom int        `json:"scope_from"`       // steps[ScopeFrom:] are supplied through one Scopes(...) function (len(steps) = none)
 	Inline    *c10RAtom  `json:"inline,omitempty"` // Delete(value, cond...) inline condition (= a last Where step)
 	KeyVia    string     `json:"key_via"`          // model | value | none
 	KeyK      int        `json:"key_k"`            // the row whose key is given (9: no row has it)
@@ -506,6 +506,31 @@ type c10ROut struct {
 	verdict string
 	known   bool
 	detail  map[string]interface{}
+	failed  bool  // the finisher returned an error
+	changed []int // rows whose cells changed / that disappeared
+	strict  []int // the reference rows
+}
+
+// c10RLeanOp: the question put to Lean ChainRows.selected / targeted for every row of the table
+func c10RLeanOp(e *c10R) []interface{} {
+	m := c10RModelOf(e.Model)
+	softScoped := m.soft != "" && !e.Unscoped
+	rows := []interface{}{}
+	for k := 1; k <= c10RN; k++ {
+		f := c10RRow(k)
+		terms := [][]bool{}
+		for i, st := range e.steps() {
+			v := st.Atom.holds(f, k)
+			if st.Op == "not" {
+				v = !v
+			}
+			terms = append(terms, []bool{st.Op == "or" && i > 0, v})
+		}
+		key := e.KeyVia == "none" || canon(m.keyOf(k)) == canon(m.keyOf(e.KeyK))
+		rows = append(rows, []interface{}{terms, key, !(m.soft != "" && c10RDeleted(k))})
+	}
+	// groupFirst: only the scoped soft-delete UPDATE runs the grouping clause before the key merge (Gen/WriteOrder.lean)
+	return []interface{}{"c10.chainsel", softScoped && !e.isDelete(), softScoped, rows}
 }
 
 func c10RJudge(e *c10R, r *Result) (out c10ROut) {
@@ -542,6 +567,7 @@ func c10RJudge(e *c10R, r *Result) (out c10ROut) {
 		}
 	}
 	out.detail["changed_rows"] = changed
+	out.failed, out.changed = failed, changed
 	if r != nil {
 		r.H("c10.r6.error", fmt.Sprint(failed))
 		if failed {
@@ -630,6 +656,7 @@ func c10RJudge(e *c10R, r *Result) (out c10ROut) {
 	}
 	strict := target(false)
 	out.detail["reference_rows"] = strict
+	out.strict = strict
 	if r != nil {
 		r.H("c10.r6.target-size", fmt.Sprint(len(strict)))
 	}
@@ -797,6 +824,12 @@ func init() {
 		}
 		t0 := time.Now()
 		defer func() { r.Note("c10 chain-rows: n=%d took %.1fs", n, time.Since(t0).Seconds()) }()
+		type pend struct {
+			e   *c10R
+			out c10ROut
+		}
+		var pends []pend
+		var ops [][]interface{}
 		for i := 0; i < n && !expired(); i++ {
 			var e *c10R
 			if i == 0 {
@@ -812,6 +845,42 @@ func init() {
 			if i == 0 && !out.known && listed(c10F36) {
 				r.Violate(Violation{Kind: "e2e", Suite: "chain-rows", Input: e, Observed: out.detail,
 					Note: "the listed finding " + c10F36 + " no longer reproduces on its witness: remove it from known_findings.d/C10.json (and its _counterexample theorem)"})
+			}
+			if out.detail != nil && out.detail["panic"] == nil && !out.failed {
+				pends = append(pends, pend{e, out})
+				ops = append(ops, c10RLeanOp(e))
+			}
+		}
+		// tie (suite chainsel): Lean ChainRows.selected on every row vs the rows the real statement changed, and
+		// Lean ChainRows.targeted vs the Go reference of the e2e oracle
+		outs, err := AskLean(ops)
+		if err != nil {
+			r.Violate(Violation{Kind: "correspondence", Suite: "chainsel", Note: err.Error()})
+			return
+		}
+		for i, p := range pends {
+			var a [][]bool
+			if err := json.Unmarshal(outs[i], &a); err != nil || len(a) != c10RN {
+				r.Violate(Violation{Kind: "correspondence", Suite: "chainsel", Input: p.e, Note: "bad answer " + string(outs[i])})
+				continue
+			}
+			sel, tgt := []int{}, []int{}
+			for k := 1; k <= c10RN; k++ {
+				if a[k-1][0] {
+					sel = append(sel, k)
+				}
+				if a[k-1][1] {
+					tgt = append(tgt, k)
+				}
+			}
+			r.CorrCompared++
+			r.Case("chainsel", canon(p.e), p.e.hasTopOr() && p.e.KeyVia != "none")
+			r.H("c10.chainsel.selected-vs-targeted", fmt.Sprintf("selected=%d targeted=%d", len(sel), len(tgt)))
+			if fmt.Sprint(sel) != fmt.Sprint(p.out.changed) || fmt.Sprint(tgt) != fmt.Sprint(p.out.strict) {
+				r.Violate(Violation{Kind: "correspondence", Suite: "chainsel", Input: p.e,
+					Observed: map[string]interface{}{"changed_rows": p.out.changed, "reference_rows": p.out.strict, "detail": p.out.detail},
+					Expected: map[string]interface{}{"selected": sel, "targeted": tgt},
+					Note:     "rows changed by the real statement / reference rows of the e2e oracle (observed) vs Lean ChainRows.selected / targeted on the 8 rows (expected)"})
 			}
 		}
 	})
